@@ -77,6 +77,13 @@ def run(ctx):
         return x[0] == "ige" and x[1][0] == "call" and x[1][1] == "len"
     for e in st:
         cs = {c for c in e.conds() if not is_len_test(c)}
+        on_tension = {c for c in cs if any(x == T.attr(be, "tension") for x in T.subterms(c))}
+        if on_tension:
+            # positively wrong: the +-1 pair of an interface is written whatever its tension (T = 0 gives the equation p_a - p_b = 0)
+            ctx.violation("GUARD", f"{gr.qualname} / GUARD / the +-1 pair is written for every internal interface, whatever its tension", ctx.where(gr, e.node),
+                          f"`{gr.module.line(e.node.lineno)}` is reached only under {[T.show(c)[:60] for c in on_tension]}: an interface whose tension is 0 loses its "
+                          "equation p_a - p_b = 0 instead of imposing it, and the pressures stop being linear in the tensions")
+            cs -= on_tension
         if len(cs) != 1:
             raise AnalysisError(f"{ctx.where(gr, e.node)}: row store under {len(cs)} orientation conditions - unsupported shape")
         branches.setdefault(next(iter(cs)), {})[e.key] = e.value
@@ -232,6 +239,7 @@ def run(ctx):
 
 _P, _G, _E = "forsys/pmatrix.py", "forsys/general_matrix.py", "forsys/edge.py"
 PINNED = [
+    ("get_row returns before the +-1 pair for zero tension", "forsys/pmatrix.py", "        if self.frame.cells[big_edge_cells[0]].get_area_sign() > 0:", "        if not big_edge.tension:\n            return lhs_row, 0.\n        if self.frame.cells[big_edge_cells[0]].get_area_sign() > 0:"),
     ("row columns from the sorted cell ids", _P, "        big_edge_cells = big_edge.own_cells\n", "        big_edge_cells = sorted(big_edge.own_cells)\n"),
     ("normalized curvature in the rhs", _P, "curvature = big_edge.calculate_total_curvature(normalized=False)", "curvature = big_edge.calculate_total_curvature(normalized=True)"),
     ("both entries +1 in one branch", _P, "            lhs_row[c1_position] = 1\n            lhs_row[c2_position] = -1", "            lhs_row[c1_position] = 1\n            lhs_row[c2_position] = 1"),
